@@ -22,3 +22,20 @@ def run(ctx):
         ctx.evaluations += len(c["steps"])
         ctx.distinct.add(("reopen", c["case"]))
     ctx.extra["adapter_reopen_cases"] = n
+    # a restart handled while blocks of the previous request are still being recorded (during the re-validation callback): the new request tells the
+    # sender to skip what is recorded as received when it is opened
+    bm = ctx.go_bin("mgrx")
+    rr = ctx.path("restartrace.ndjson")
+    ctx.must_run_go(bm, "TestRestartDuringProgress", env={"VERIF_OUT": rr}, timeout=300)
+    nrr, rrv = stages.judge(ctx, rr, module="EqualsJudge")
+    ridx = stages.index_obs(rr)
+    for v in rrv:
+        c = ridx[v["case"]]
+        if v["rule"] == "harness":
+            raise vlib.Inconclusive("TestRestartDuringProgress: " + c["err"])
+        ctx.violation({"rule": v["rule"], "scenario": v["op"]}, "%s violated (%s): the restarted transport request tells the sender to skip %d blocks, %d are recorded as received" % (
+            v["rule"], v["case"], c["left"], c["right"]), detail=c)
+    for c in ridx.values():
+        ctx.traces += 1
+        ctx.evaluations += 1
+        ctx.distinct.add(("restartrace", c["case"], c["left"]))
